@@ -11,61 +11,68 @@ TRUST = ("Trusted base: Verus 0.2026.09.13 + its Z3; /verif/prelude/*.rs (assume
 P = {
  'C01': dict(claim=True, cat='proof', technique='Verus refinement contracts: every muxer step proved against an abstract sample history (views of the run-length tables)',
    text=("Every step of the track writer (update_sample_sizes/_times/_rendering_offsets/_sync_samples, update_sample_to_chunk, update_chunk_offsets, write_chunk, write_sample, write_end, new) "
-         "and of Mp4Writer (write_start, add_track, write_sample, update_mdat_size) is proved to transform the abstract views (per-sample sizes, durations, composition offsets, sync flags, chunk map) exactly as "
+         "and of Mp4Writer (write_start, add_track, write_sample, update_mdat_size, write_end) is proved to transform the abstract views (per-sample sizes, durations, composition offsets, sync flags, chunk map) exactly as "
          "appending the written sample does, for all histories; rejected calls are proved to leave the writer observationally unchanged; the pending bytes are proved to be appended verbatim and flushed at the recorded offset. "
          "The views are the ISO expansions that C03 proves the reader to implement."),
-   note=TRUST + " Not mechanised: the end-to-end composition lemma (history -> bytes -> reader) and the container tree between writer and reader; histories < 2^32-2 samples per track and sample length < 4 GiB are stated preconditions."),
- 'C02': dict(claim=True, cat='proof', technique='Verus: representation invariant = mutual consistency of the tables, chunk-map step lemma, duration contracts, layout of write_start / update_mdat_size',
+   note=TRUST + " Not mechanised: the end-to-end composition lemma (history -> bytes -> reader) and the functional behaviour of the container decoders between the tables and the reader (only their size/consumption/IO families are proved); histories < 2^32-2 samples per track and sample length < 4 GiB are stated preconditions."),
+ 'C02': dict(claim=True, cat='proof', technique='Verus: representation invariant = mutual consistency of the tables, chunk-map step lemma, duration contracts, byte-exact layout of write_start / update_mdat_size, size contracts on every box of the moov tree',
    text=("The writer invariant tw_wf is literally the mutual consistency of the sample tables (size, time-to-sample, composition-offset, sample-to-chunk tables each account for exactly n samples; sync numbers strictly increasing and in range; "
          "every chunk holds at least one sample); write_end is proved to return tables satisfying muxed_tables_consistent; mdhd.duration is proved equal to the summed durations, tkhd.duration to its floor conversion, the movie duration to the maximum; "
-         "write_start's bytes (ftyp + mdat/wide placeholders) and the mdat size patch are proved byte-exactly; table box sizes are proved equal to the ISO lengths."),
-   note=TRUST + " Not yet covered: sizes / tiling of the moov subtree as a whole (container write_box functional contracts), disjointness of chunks across tracks."),
+         "write_start's bytes (ftyp + mdat/wide placeholders) and the mdat size patch are proved byte-exactly; for every box of the movie tree box_size() is proved equal to the ISO length and write_box to advance the stream by exactly that "
+         "(containers: 8 + sum of children), so sibling boxes tile their parent."),
+   note=TRUST + " Not covered: disjointness of chunks across tracks as a whole-file statement (each chunk is proved to be written at the recorded offset with the recorded length)."),
  'C03': dict(claim=True, cat='proof', technique='Verus contracts on the extracted real functions; ISO 14496-12 sample-table semantics as postconditions',
    text=("Deductive proof, for all table shapes and all sample ids, that the real Mp4Track::{sample_count, stsc_index, chunk_offset, ctts_index, sample_size, "
          "sample_time, sample_rendering_offset, is_sync_sample, sample_offset, read_sample} and Mp4Reader::{sample_count, sample_offset, read_sample} return what "
          "spec/tables.rs (written from ISO/IEC 14496-12 8.6/8.7, no code shared) prescribes under the property's own hypothesis `stbl_consistent`; "
          "StscBox::read_box is proved to derive first_sample by the ISO formula; the seven table decoders are proved against layout predicates."),
    note=TRUST + " Hypothesis n < 2^32-1 samples. The path of the tables through the container tree (stbl..moov read_box) and the outlined track-table construction in read_header are not functionally verified."),
- 'C04': dict(claim=True, cat='proof', technique='Verus: layout predicate (reader) + reference encoder (writer) per box, size/position family',
-   text=("For stts, ctts, stss, stsc, stsz, stco, co64 and the header helpers: write_box is proved to append exactly the bytes of an independently written reference encoder, "
-         "return box_size(), and read_box to consume exactly the box and return a value satisfying the layout predicate, with a proved functionality lemma (decode is a function). "
-         "Other boxes are not yet under functional contract (listed in evidence as outside coverage)."),
-   note=TRUST + " Domain: box_size <= u32::MAX (D-20). The lemma linking reference encoder and layout predicate (full round trip) is not mechanised; both directions are proved against specs written from the same ISO clause."),
- 'C05': dict(claim=True, cat='proof', technique='same obligations as C04; the specs are written from the ISO syntax tables with clause numbers',
-   text="Conformance of the seven sample-table boxes, the box header (32/64-bit) and the FullBox header to layouts written from ISO/IEC 14496-12, proved separately for encoder and decoder so that a symmetric mistake fails on both.",
-   note=TRUST + " BoxHeader::read is assumed in Verus (from_be_bytes on arrays is outside the dialect); bit-packed codec records not yet covered."),
- 'C06': dict(claim=True, cat='proof', technique='Verus safety obligations (overflow, division, index, unwrap) under parser-established preconditions only',
-   text=("Absence of panics proved for every Mp4Track lookup/accessor in both the sample-table and the fragment branch, Mp4Reader accessors, and the seven table decoders, "
-         "for all inputs satisfying only what the parser itself establishes (`track_parsed`). Nine genuine panics were found this way and repaired by fix: commits (known_findings.json)."),
-   note=TRUST + " Not covered yet: container decoders, read_header loop, codec boxes, to_json/summary/Display (outside any contract's reach). Domain assumption: fewer than 2^32 track fragments per track."),
- 'C07': dict(claim=True, cat='proof', technique='Verus decreases/ghost-iterator termination + op-count monotonicity',
-   text="Termination of every loop in the functions under contract (table decoders, lookups); container loops are not yet under contract.",
-   note=TRUST + " CPU time is not expressible; only loop termination and stream-op monotonicity are proved. Container loops (zero-size child hang, D-22) not yet covered."),
- 'C08': dict(claim=True, cat='proof', technique='Verus: entry-count guards imply count*entry_size <= box size <= input length',
-   text="For the seven table decoders the number of entries allocated is proved bounded by the declared box size, itself bounded by the input length (precondition chained from read_header).",
-   note=TRUST + " Vec growth policy trusted. read_sample's vec![0; sample_size], meta/hdlr/emsg/data sites not yet covered."),
+ 'C04': dict(claim=True, cat='proof', technique='Verus: layout predicate (reader) + reference encoder (writer) per box, size/position family on every box',
+   text=("Byte level, both directions, for ftyp, stts, ctts, stss, stsc, stsz, stco, co64, mvhd, tkhd, mdhd, mfhd, mehd, trex, tfdt, tfhd, vmhd, smhd, the box header (32/64-bit) and the FullBox header: write_box is proved to append exactly the bytes of an "
+         "independently generated reference encoder and to return box_size(); read_box to consume exactly the box and return a value satisfying the layout predicate. Size level for every other box of the muxer's tree and emsg "
+         "(box_size() == ISO length, write_box advances by exactly that, read_box consumes exactly the declared size for both header forms, trailing bytes skipped). data / ilst / meta / udta decoders: functional (C18)."),
+   note=TRUST + " Domain: box_size <= u32::MAX (D-20). The lemma linking reference encoder and layout predicate (full round trip) is not mechanised; both directions are proved against specs generated from the same ISO syntax table. "
+        "Not under functional contract: hdlr name / url location strings, avcC/hvcC/vpcC/esds field values (sizes only), trun, elst, tx3g, the container decoders' child selection (except the metadata path)."),
+ 'C05': dict(claim=True, cat='proof', technique='same obligations as C04; the specs are generated from the ISO syntax tables with clause numbers (tool/gen_layouts.py, tool/gen_tables.py) or written from them; Kani full-domain harnesses for bit-level helpers',
+   text="Conformance of the boxes listed under C04 (byte level), of the descriptor length coding (size_of_length, Kani all u32), the AAC object-type escape coding (Verus + Kani all 2^16), the box-type registry (Kani: independent table) and BoxHeader::read (Kani, all 16-byte inputs: complete) to layouts written from ISO/IEC 14496-12/-14/-1, proved separately for encoder and decoder so that a symmetric mistake fails on both.",
+   note=TRUST + " Bit-packed codec records (avcC/hvcC/vpcC field values, esds descriptor contents beyond their lengths) are not covered."),
+ 'C06': dict(claim=True, cat='proof', technique='Verus safety obligations (overflow, division, index, unwrap, panic!) under parser-established preconditions only',
+   text=("Absence of panics proved for every decoder (all read_box functions, descriptors, NAL units, header helpers), every Mp4Track lookup/accessor in both the sample-table and the fragment branch, Mp4Reader accessors and the metadata accessors, "
+         "for all inputs satisfying only what the parser itself establishes (a header was read, the declared size does not exceed the input, `track_parsed`). Fourteen genuine panics/hangs on this path were found this way and repaired by fix: commits (known_findings.json)."),
+   note=TRUST + " Not covered: to_json/summary/Display (serde / format machinery, outside any contract's reach; D-21), Mp4Track::bitrate (f64), the outlined track-table construction of read_header. Domain: input < 2^62 bytes, fewer than 2^32 track fragments per track."),
+ 'C07': dict(claim=True, cat='proof', technique='Verus decreases / ghost-iterator termination on every loop + stream-op monotonicity + exact consumption as progress measure',
+   text="Termination of every loop of every function under contract: table decoders (entry counts), container child loops (measure end - current, progress from the exact-consumption contracts of the children and the zero-size guards added by the D-22 fixes), descriptor loops, lookups, muxer loops.",
+   note=TRUST + " CPU time is not expressible; only loop termination, stream-op monotonicity and per-loop iteration bounds are proved. The linear bound on total work is argued from these, not mechanised."),
+ 'C08': dict(claim=True, cat='other', technique='Verus: ghost assertion injected at every allocation site (vec![_; n], with_capacity, reserve): n <= enclosing box size <= input length',
+   text=("23 of the 24 allocation sites whose length comes from the file are proved bounded by the declared size of the enclosing box, itself bounded by the input length (precondition chained down from read_header). "
+         "The 24th, Mp4Track::read_sample's vec![0; sample_size], is a genuine defect (D-26: a 610-byte file requests 256 MiB) recorded in known_findings.json with a concrete replay; the check reports it as KNOWN-FINDING and still fails on any other site. "
+         "Level is 'other' rather than 'proof' because one obligation is, by design, not discharged."),
+   note=TRUST + " Vec growth policy, HashMap and Bytes internals trusted to be linear in their contents."),
  'C09': dict(claim=True, cat='proof', technique='Verus contracts: ISO 14496-12 8.8 fragment semantics as postconditions of the real lookup functions',
    text=("find_traf_idx_and_sample_idx is proved to locate the unique (fragment, index-in-run) of sample k; sample_count, sample_size, sample_offset (explicit base or moof start, signed data offset, "
-         "sizes of earlier samples of the run), sample_time (base decode time + earlier durations; per-sample / tfhd default / movie default), rendering offset are proved against spec/fragments.rs."),
-   note=TRUST + " The attachment of trafs and moof offsets to tracks in read_header is outlined (assumed); tfhd/tfdt/trun/trex decoders not yet under functional contract."),
- 'C10': dict(claim=True, cat='proof', technique='Verus: ghost `failed` flag; uniform postcondition failed => Err(IoError), every stream op requires a live stream',
-   text="For every function under contract that touches a stream: any failing stream call makes the function return Err(IoError); no function reports an I/O error without one; raw read/write have only the weak POSIX contract so relying on them breaks the functional postconditions.",
+         "sizes of earlier samples of the run), sample_time (base decode time + earlier durations; per-sample / tfhd default / movie default), rendering offset are proved against spec/fragments.rs; tfhd, tfdt, mfhd, mehd, trex decoders byte-exact (C04)."),
+   note=TRUST + " The attachment of trafs and moof offsets to tracks in read_header is outlined (assumed, sha-pinned); trun decoder not under functional contract."),
+ 'C10': dict(claim=True, cat='proof', technique='Verus: ghost `failed` flag; uniform postcondition failed => Err(IoError), every stream op requires a live stream; Kani: BoxHeader::read over a reader that returns one byte per call',
+   text="For every function under contract that touches a stream: any failing stream call makes the function return Err(IoError); no function reports an I/O error without one; raw read/write have only the weak POSIX contract so relying on them breaks the functional postconditions; BoxHeader::read is proved (Kani, all 16-byte inputs) to return the same header through a reader that delivers one byte per call.",
    note=TRUST + " std/byteorder retry semantics for short transfers and Interrupted are assumed by the prelude."),
- 'C11': dict(claim=True, cat='other', technique='Verus: single-run core (frame, no stale bytes, returned bytes occur in the file)',
-   text="Mechanised: returned sample bytes are exactly data[off..off+len] of the stream (never stale buffer contents), stream content is never modified, no panic/hang in the covered functions. The relation to the complete file is argued, not mechanised (DESIGN section 6).",
+ 'C11': dict(claim=True, cat='other', technique='Verus: single-run core (frame, no stale bytes, returned bytes occur in the file); Kani: truncated headers are errors',
+   text="Mechanised: returned sample bytes are exactly data[off..off+len] of the stream (never stale buffer contents), stream content is never modified, no panic/hang in the covered functions, a box header cut by the end of the input is an error (Kani, all inputs of 0..7 bytes). The relation to the complete file is argued, not mechanised (DESIGN section 6).",
    note=TRUST),
- 'C12': dict(claim=True, cat='other', technique='Verus: exact consumption of every box (pos == start+size) for both header forms, skip helpers',
+ 'C12': dict(claim=True, cat='other', technique='Verus: exact consumption of every box (pos == start+size) for both header forms, skip helpers; Kani: both header forms over all 16-byte inputs',
    text="Mechanised sub-obligations: header contract for both forms, every decoder under contract leaves the stream at the end of its box whatever trailing bytes it has, skip_box/skip_bytes_to exactness. The two-file relation itself is not mechanised (DESIGN section 6).",
-   note=TRUST),
+   note=TRUST + " Known deviation, documented not checked: avc1/mp4a child loops skip a 64-bit child header 8 bytes short (D-31); MetaBox stops where its child walk stops (proved equal to meta_stop)."),
  'C13': dict(claim=True, cat='proof', technique='Verus on symbolic 64-bit quantities (no 4 GiB of data needed)',
    text=("update_mdat_size is proved to write the 32-bit size up to 2^32-1 and, beyond, size=1 plus the 64-bit size into exactly the 8 bytes of the wide placeholder, restoring the position; BoxHeader::write uses the 64-bit form iff size > u32::MAX; "
-         "update_durations sets version 1 as soon as mdhd / tkhd durations exceed 32 bits and never clears it; write_end keeps co64 iff some chunk offset exceeds u32::MAX and otherwise emits stco with the same values; chunk offsets are the stream positions at flush time for any start position."),
-   note=TRUST + " StcoBox::try_from is assumed in Verus (iterator adapters), bounded-checked by Kani. mvhd version gating in Mp4Writer::write_end and the version-gated field widths of mvhd/tkhd/mdhd encoders are not yet under functional contract."),
- 'C14': dict(claim=True, cat='other', technique='Verus: Mp4TrackWriter::new postcondition, accessor contracts, ftyp codec, duration contracts',
-   text="Proved: Mp4TrackWriter::new stores track id, timescale, language and the media kind selected by the configuration; ftyp encodes/decodes brands, minor version exactly (reference encoder + layout predicate); Mp4Reader brand/timescale accessors return the decoded fields; durations are converted as specified. Codec parameter records (avcC, esds) and the mdhd language packing are not yet under functional contract.",
+         "update_durations sets version 1 as soon as mdhd / tkhd durations exceed 32 bits and never clears it; write_end keeps co64 iff some chunk offset exceeds u32::MAX and otherwise emits stco with the same values; chunk offsets are the stream positions at flush time for any start position; "
+         "mvhd / tkhd / mdhd encoders are proved to write 64-bit fields iff version == 1 (byte-exact)."),
+   note=TRUST + " StcoBox::try_from is assumed in Verus (iterator adapters) and checked by Kani for tables of at most 3 entries (bounded, labelled so in the evidence)."),
+ 'C14': dict(claim=True, cat='other', technique='Verus: Mp4TrackWriter::new postcondition, constructor contracts, accessor contracts, ftyp/mdhd/tkhd codecs, language packing; Kani cross-checks',
+   text=("Proved: Mp4TrackWriter::new stores track id, timescale, language and the media kind selected by the configuration and rejects exactly the configurations outside track_config_ok; the sample-entry constructors copy width/height, parameter sets, "
+         "object type / frequency index / channel configuration codes; ftyp, mdhd (incl. the ISO-639 packing, proved inverse on all 15-bit codes), tkhd encode/decode byte-exactly; Mp4Reader brand/timescale accessors return the decoded fields; durations are converted as specified. "
+         "Level 'other': the codec parameter records (avcC, esds contents) are under size contracts only and the composition through the container tree is not mechanised."),
    note=TRUST),
  'C15': dict(claim=True, cat='proof', technique='Verus frame conditions + postconditions that are functions of (tables, stream data, arguments)',
-   text="Reader calls leave tracks/moov/ftyp/size and the stream content unchanged (&mut self frame proved) and their results are specified purely in terms of the tables, the stream data and the arguments (never the stream position), with uniqueness lemmas, so any call history returns what a fresh reader returns. Muxing determinism not yet covered.",
+   text="Reader calls leave tracks/moov/ftyp/size and the stream content unchanged (&mut self frame proved) and their results are specified purely in terms of the tables, the stream data and the arguments (never the stream position), with uniqueness lemmas, so any call history returns what a fresh reader returns. Muxer: every step's result is a function of the previous abstract state and the arguments (C01).",
    note=TRUST + " A failed call leaves the ghost `failed` flag set: later calls are covered only from a live stream."),
  'C16': dict(claim=True, cat='proof', technique='Verus contracts against defining tables (spec/enums.rs, spec/codes.rs) on the extracted functions + loop-free Kani harnesses over the full symbolic domain of the compiled functions',
    text=("Verus proves, for every input value, that AudioObjectType / SampleFreqIndex / ChannelConfig / DataType / AvcProfile / TrackType(four-byte) conversions return exactly what the defining tables prescribe and reject exactly the other values "
